@@ -369,6 +369,34 @@ fn sequential_case(ctx: &mut Ctx, case: u64, rng: &mut Rng) {
                 }
                 continue;
             }
+            // sometimes the caller stops waiting right after its request was sent (a cancelled
+            // call): the request is in the actor's queue, so later replies must reflect it
+            if rng.chance(1, 10) {
+                let d = rng.below(2);
+                let op = gen_op(rng, 2, &mut uniq, 0, false, &mut known);
+                if matches!(op, Op::SetSync(_) | Op::Subscribe | Op::InsertLocal { .. } | Op::DeletePrefix { .. } | Op::InsertRemote { .. } | Op::ImportWrite | Op::ImportRead) {
+                    {
+                        let mut fut = Box::pin(clients[d].exec(&op));
+                        // one poll sends the request (the queue is never full here), then the future is dropped
+                        let waker = std::task::Waker::noop();
+                        let mut cx = std::task::Context::from_waker(waker);
+                        let _ = std::future::Future::poll(fut.as_mut(), &mut cx);
+                    }
+                    let _ = specs[d].apply(&op, &docs[d], t);
+                    trace.push(format!("doc{d} (sent, reply not awaited) {op:?}"));
+                    ctx.count("requests_sent_without_awaiting_the_reply", 1);
+                    // the next awaited request is answered after it (FIFO): compare the open state
+                    let gs = clients[d].exec(&Op::GetState).await;
+                    let ws = specs[d].clone().apply(&Op::GetState, &docs[d], t);
+                    let ge = clients[d].exec(&Op::GetMany).await;
+                    let we = specs[d].clone().apply(&Op::GetMany, &docs[d], t);
+                    if gs != ws || ge != we {
+                        ctx.violation(case, "request-whose-caller-stopped-waiting-was-not-executed", json!({"state": format!("{gs:?}"), "expected_state": format!("{ws:?}"), "entries": format!("{ge:?}"), "expected_entries": format!("{we:?}"), "trace": trace}));
+                        return;
+                    }
+                    continue;
+                }
+            }
             let d = rng.below(2);
             let op = gen_op(rng, 2, &mut uniq, 0, false, &mut known);
             let want = specs[d].apply(&op, &docs[d], t);
